@@ -160,6 +160,8 @@ def make_map(spec):
         return lambda x: {"m": copy.deepcopy(x.get(k)), "nk": len(x)}
     if m == "mixed":
         return lambda x: ({"m": 1} if x.get(k) is None else 0)
+    if m == "identity":
+        return lambda x: x
     raise AssertionError(m)
 
 
@@ -320,7 +322,7 @@ class World:
         stack = [h]
         while stack:
             x = stack.pop()
-            ps = set(self.model[x].strong)
+            ps = set(self.model[x].strong) | set(getattr(self.model[x], "observed", ()))
             if not strong_only:
                 ps |= self.model[x].weak
             for p in ps:
@@ -393,18 +395,31 @@ class World:
                                   f"item.{k} differs from item[{k!r}]")
         return True
 
-    def adopt(self, handle, real, group=()):
+    def adopt(self, handle, real, group=(), sources=()):
         """Build the model list from the real one (resynchronisation)."""
         mitems = []
+        shared = []
         for r in list.__iter__(real):
             m = self.r2m.get(id(r))
             if m is None:
                 m = copy.deepcopy(plain(r))
                 self.pair(r, m)
+            else:
+                shared.append(id(m))
             mitems.append(m)
         self.lists[handle] = real
         ml = MList(mitems, group)
         self.model[handle] = ml
+        # a source list of this operation whose item objects were handed on is a parent, whatever
+        # the method was (C17: "every list from which it was obtained through methods that hand
+        # on the same item objects")
+        ml.observed = set()
+        if shared:
+            ss = set(shared)
+            for h2 in sources:
+                m2 = self.model.get(h2)
+                if m2 is not None and h2 != handle and any(id(x) in ss for x in m2.items):
+                    ml.observed.add(h2)
         return ml
 
     # -- one step ---------------------------------------------------------
@@ -835,6 +850,50 @@ class World:
         self.check_heap(op)
         return {"involved": [recv], "method_use": True}
 
+    # -- constructors that must copy: ListOfDicts(existing), extend(plain list of items) ------
+
+    def op_construct_from(self, op):
+        recv = op["t"]
+        real = self.lists[recv]
+        m = self.model[recv]
+        res, err = self.call(lambda: self.L(real))
+        info = {"involved": [], "method_use": False}
+        if err is not None:
+            self.viol("C15", "total", f"C15.raise|construct_from|{type(err).__name__}", repr(err))
+            return info
+        ml = self.adopt(op["out"], res, (), sources=[recv])
+        ml.strong, ml.weak, ml.left = set(), set(), set()
+        got = [plain(x) for x in list.__iter__(res)]
+        if not same(got, [dict(x) for x in m.items]):
+            self.viol("C15", "value", "C15.value|construct_from|differs", f"{got!r} != {m.items!r}")
+        self.check_heap(op)
+        return info
+
+    def op_extend_items(self, op):
+        recv, o = op["t"], op["other"]
+        real, other = self.lists[recv], self.lists[o]
+        m = self.model[recv]
+        plain_list = list(list.__iter__(other))      # a plain Python list holding other's items
+        res, err = self.call(lambda: real.extend(plain_list))
+        info = {"involved": [recv], "method_use": True}
+        if err is not None:
+            self.viol("C15", "total", f"C15.raise|extend_items|{type(err).__name__}", repr(err))
+            info["raised"] = True
+            return info
+        known_before = set(self.r2m)
+        ml = self.adopt(op["out"], res, m.group)
+        ml.strong, ml.left = {recv}, {recv}
+        # only the appended part can have been handed on from `other`
+        tail = list(list.__iter__(res))[len(m.items):]
+        if any(id(x) in known_before for x in tail):
+            ml.observed = {o}
+        got = [plain(x) for x in list.__iter__(res)]
+        want = [dict(x) for x in m.items] + [dict(x) for x in self.model[o].items]
+        if not same(got, want):
+            self.viol("C15", "value", "C15.sequence|extend_items|differs", f"{got!r} != {want!r}")
+        self.check_heap(op)
+        return info
+
     # -- edits the caller makes directly (documented: items are plain dicts with attribute
     # access; "you can use those [in-place methods] from the list baseclass") ---------------
 
@@ -933,7 +992,7 @@ class World:
         if coerce != isinstance(res, self.L):
             self.viol("C15", "type", "C15.type|map|coercion", f"map returned {type(res).__name__}, dicts={coerce}")
         if isinstance(res, self.L):
-            ml = self.adopt(op["out"], res, ())
+            ml = self.adopt(op["out"], res, (), sources=[recv])
             ml.strong = set()
             ml.weak = set()
             ml.left = set()
@@ -1597,7 +1656,7 @@ class Gen:
             "agg": ["aggregate", "split", "group_by"],
             "copy": ["deepcopy", "copy"],
             "observe": ["pluck", "keys", "len", "getitem", "map"],
-            "direct": ["item_set", "list_append"],
+            "direct": ["item_set", "list_append", "construct_from", "extend_items"],
             "render": ["render"],
         }
         weights = {"subset": 3, "order": 2, "algebra": 3, "edit": 3, "join": 2, "agg": 1,
@@ -2014,6 +2073,14 @@ class Gen:
         op["keys"] = [self.rng.choice(KEYS_INT)]
         return op
 
+    def g_construct_from(self):
+        return self.base("construct_from", prefer_nonempty=True)
+
+    def g_extend_items(self):
+        op = self.base("extend_items", prefer_nonempty=False)
+        op["other"] = self.pick(prefer_nonempty=True)
+        return op
+
     def g_item_set(self):
         op = self.base("item_set", out=False)
         r = self.rng
@@ -2049,7 +2116,7 @@ class Gen:
 
     def g_map(self):
         op = self.base("map")
-        op["map"] = {"m": self.rng.choice(["value", "dict", "mixed"]), "k": self.rng.choice(KEYS_INT)}
+        op["map"] = {"m": self.rng.choice(["value", "dict", "mixed", "identity"]), "k": self.rng.choice(KEYS_INT)}
         return op
 
     def g_render(self):
